@@ -103,6 +103,82 @@ Definition ec_size_p256 : N := 32.
 Definition ec_size_p384 : N := 48.
 Definition ec_size_p521 : N := 66.
 
+(* ---- Ed25519: signature/ed25519/key.go NewPublicKey / NewPrivateKeyWithPublicKey ---- *)
+Definition ed25519_pub_size : N := 32.
+Definition ed25519_seed_size : N := 32.
+
+(* ---- proto/common.proto: CURVE25519, EcPointFormat ---- *)
+Definition c_x25519 : N := 5.
+Definition pf_uncompressed : N := 1.
+Definition pf_compressed : N := 2.
+Definition pf_crunchy_uncompressed : N := 3.
+
+(* ---- ECIES: hybrid/ecies/parameters.go mustCreateAllowedDEMParameters (codes of this model) ---- *)
+Definition dem_aes128_gcm : N := 1.
+Definition dem_aes256_gcm : N := 2.
+Definition dem_aes256_siv : N := 3.
+Definition dem_xchacha : N := 4.                   (* allowed by NewParameters, refused by NewDEMHelper *)
+Definition dem_aes128_ctr_hmac : N := 5.
+Definition dem_aes256_ctr_hmac : N := 6.
+Definition dem_gcm_key_a : N := 16.
+Definition dem_gcm_key_b : N := 32.
+Definition dem_siv_key : N := 64.
+Definition dem_ctr_iv : N := 16.
+Definition dem_ctr_hmac_key : N := 32.
+Definition dem_ctr128_aes : N := 16.
+Definition dem_ctr128_tag : N := 16.
+Definition dem_ctr256_aes : N := 32.
+Definition dem_ctr256_tag : N := 32.
+
+(* ---- HPKE: proto/hpke.proto HpkeKem; hybrid/hpke/key.go ---- *)
+Definition kem_x25519 : N := 1.
+Definition kem_p256 : N := 2.
+Definition kem_p384 : N := 3.
+Definition kem_p521 : N := 4.
+Definition kem_xwing : N := 5.
+Definition kem_mlkem768 : N := 6.
+Definition kem_mlkem1024 : N := 7.
+Definition hpke_max_kdf : N := 3.                  (* HKDF_SHA256 = 1 .. HKDF_SHA512 = 3 *)
+Definition hpke_max_aead : N := 3.                 (* AES_128_GCM = 1 .. CHACHA20_POLY1305 = 3 *)
+Definition xwing_pub_size : N := 1216.
+Definition xwing_secret_size : N := 32.            (* hybrid/internal/xwing secretKeySize *)
+Definition mlkem768_pub_size : N := 1184.
+Definition mlkem1024_pub_size : N := 1568.
+
+(* ---- streaming AEAD: streamingaead/{aesgcmhkdf,aesctrhmac}/{parameters,key}.go,
+   streamingaead/subtle/{aes_gcm_hkdf,aes_ctr_hmac}.go ---- *)
+Definition stream_derived_a : N := 16.
+Definition stream_derived_b : N := 32.
+Definition stream_gcm_overhead : N := 24.          (* nonce prefix 7 + header length 1 + tag 16 *)
+Definition stream_ctr_overhead : N := 8.           (* nonce prefix 7 + header length 1 (the tag is a parameter) *)
+Definition stream_min_main_key : N := 16.          (* len(mainKey) < 16 *)
+Definition stream_min_tag : N := 10.
+
+(* ---- JWT: jwt/jwthmac/parameters.go minKeySizeInBytes; proto enums HS/ES/RS/PS 256 = 1, 384 = 2, 512 = 3 ---- *)
+Definition jwt_alg_256 : N := 1.
+Definition jwt_alg_384 : N := 2.
+Definition jwt_alg_512 : N := 3.
+Definition jwt_hs256_min_key : N := 32.
+Definition jwt_hs384_min_key : N := 48.
+Definition jwt_hs512_min_key : N := 64.
+Definition jwt_mldsa_44 : N := 1.                  (* proto/jwt_ml_dsa.proto JwtMlDsaAlgorithm *)
+Definition jwt_mldsa_65 : N := 2.
+Definition jwt_mldsa_87 : N := 3.
+
+(* ---- ML-DSA: proto/ml_dsa.proto MlDsaInstance; internal/signature/mldsa PublicKeyLength ---- *)
+Definition mldsa_65 : N := 1.
+Definition mldsa_87 : N := 2.
+Definition mldsa_44 : N := 3.
+Definition mldsa44_pub_size : N := 1312.
+Definition mldsa65_pub_size : N := 1952.
+Definition mldsa87_pub_size : N := 2592.
+Definition pt_with_id_requirement : N := 5.        (* OutputPrefixType_WITH_ID_REQUIREMENT (refused by keyset.Validate) *)
+
+(* ---- SLH-DSA: signature/slhdsa/key.go parameter sets: private key of 4n = 64, 96, 128 bytes ---- *)
+Definition slhdsa_key_a : N := 64.
+Definition slhdsa_key_b : N := 96.
+Definition slhdsa_key_c : N := 128.
+
 (* ---- type URLs with a model of their parser and primitive constructor ---- *)
 Definition url_hmac := "type.googleapis.com/google.crypto.tink.HmacKey".
 Definition url_aes_cmac := "type.googleapis.com/google.crypto.tink.AesCmacKey".
@@ -120,11 +196,32 @@ Definition url_rsa_pss_pub := "type.googleapis.com/google.crypto.tink.RsaSsaPssP
 Definition url_chacha := "type.googleapis.com/google.crypto.tink.ChaCha20Poly1305Key".
 Definition url_xchacha := "type.googleapis.com/google.crypto.tink.XChaCha20Poly1305Key".
 Definition url_xaes_gcm := "type.googleapis.com/google.crypto.tink.XAesGcmKey".
+Definition url_ed25519_pub := "type.googleapis.com/google.crypto.tink.Ed25519PublicKey".
+Definition url_ed25519_priv := "type.googleapis.com/google.crypto.tink.Ed25519PrivateKey".
+Definition url_rsa_pkcs1_priv := "type.googleapis.com/google.crypto.tink.RsaSsaPkcs1PrivateKey".
+Definition url_rsa_pss_priv := "type.googleapis.com/google.crypto.tink.RsaSsaPssPrivateKey".
+Definition url_ecies_pub := "type.googleapis.com/google.crypto.tink.EciesAeadHkdfPublicKey".
+Definition url_ecies_priv := "type.googleapis.com/google.crypto.tink.EciesAeadHkdfPrivateKey".
+Definition url_hpke_pub := "type.googleapis.com/google.crypto.tink.HpkePublicKey".
+Definition url_hpke_priv := "type.googleapis.com/google.crypto.tink.HpkePrivateKey".
+Definition url_stream_gcm_hkdf := "type.googleapis.com/google.crypto.tink.AesGcmHkdfStreamingKey".
+Definition url_stream_ctr_hmac := "type.googleapis.com/google.crypto.tink.AesCtrHmacStreamingKey".
+Definition url_jwt_hmac := "type.googleapis.com/google.crypto.tink.JwtHmacKey".
+Definition url_jwt_ecdsa_pub := "type.googleapis.com/google.crypto.tink.JwtEcdsaPublicKey".
+Definition url_jwt_ecdsa_priv := "type.googleapis.com/google.crypto.tink.JwtEcdsaPrivateKey".
+Definition url_jwt_rsa_pkcs1_pub := "type.googleapis.com/google.crypto.tink.JwtRsaSsaPkcs1PublicKey".
+Definition url_jwt_rsa_pss_pub := "type.googleapis.com/google.crypto.tink.JwtRsaSsaPssPublicKey".
+Definition url_jwt_rsa_pkcs1_priv := "type.googleapis.com/google.crypto.tink.JwtRsaSsaPkcs1PrivateKey".
+Definition url_jwt_rsa_pss_priv := "type.googleapis.com/google.crypto.tink.JwtRsaSsaPssPrivateKey".
+Definition url_jwt_mldsa_pub := "type.googleapis.com/google.crypto.tink.JwtMlDsaPublicKey".
+Definition url_mldsa_pub := "type.googleapis.com/google.crypto.tink.MlDsaPublicKey".
+Definition url_slhdsa_pub := "type.googleapis.com/google.crypto.tink.SlhDsaPublicKey".
+Definition url_slhdsa_priv := "type.googleapis.com/google.crypto.tink.SlhDsaPrivateKey".
 
-(* ---- type URLs that have a registered key parser (RegisterKeyParser) which
-   this model does not transcribe; keysets containing them are decided by the
-   direct check only ---- *)
-Definition unmodelled_urls : list string := (
+(* ---- the registered key types outside the 16 that model/Secrets.v (C13) was
+   built on: C13 keeps deciding keysets that hold one of them by its direct
+   check only, whether or not this model transcribes their parser ---- *)
+Definition c13_outside_urls : list string := (
   "type.googleapis.com/google.crypto.tink.AesCtrHmacStreamingKey" ::
   "type.googleapis.com/google.crypto.tink.AesGcmHkdfStreamingKey" ::
   "type.googleapis.com/google.crypto.tink.EciesAeadHkdfPublicKey" ::
@@ -149,5 +246,15 @@ Definition unmodelled_urls : list string := (
   "type.googleapis.com/google.crypto.tink.MlDsaPrivateKey" ::
   "type.googleapis.com/google.crypto.tink.SlhDsaPublicKey" ::
   "type.googleapis.com/google.crypto.tink.SlhDsaPrivateKey" ::
+  "type.googleapis.com/google.crypto.tink.CompositeMlDsaPublicKey" ::
+  "type.googleapis.com/google.crypto.tink.CompositeMlDsaPrivateKey" :: nil)%list.
+
+(* ---- type URLs that have a registered key parser (RegisterKeyParser) which
+   this model does not transcribe; keysets containing them are decided by the
+   direct check only ---- *)
+Definition unmodelled_urls : list string := (
+  "type.googleapis.com/google.crypto.tink.PrfBasedDeriverKey" ::
+  "type.googleapis.com/google.crypto.tink.JwtMlDsaPrivateKey" ::
+  "type.googleapis.com/google.crypto.tink.MlDsaPrivateKey" ::
   "type.googleapis.com/google.crypto.tink.CompositeMlDsaPublicKey" ::
   "type.googleapis.com/google.crypto.tink.CompositeMlDsaPrivateKey" :: nil)%list.
